@@ -87,7 +87,7 @@ class AdHocTag(Tag):
         try:
             completed_process = subprocess.run(
                 command_line,
-                input=context.encode("utf-8") if context else None,
+                input=context.encode("utf-8") if context is not None else None,
                 capture_output=True,
                 timeout=self.timeout_ms / 1000,
                 cwd=file.input_directory,
